@@ -25,7 +25,9 @@ O (direct oracle on the real events, from the property text)
       at acquire and the request fails.
   O3  request outcomes: a request whose hook raised dispatches nothing and fails (HTTP 500 / serve() raises); a
       successful HTTP request dispatches exactly once, `serve()` once per request; every method sees `ctx.kind != None`;
-      with a hook that always raises the server stays unbound and nothing is ever dispatched.
+      with a hook that always raises the server stays unbound and nothing is ever dispatched;
+  O4  every serve() call (the real entry point, sequential chains over different transport classes included) has seen
+      the server bound to ITS OWN (kind, capabilities) before its first method is dispatched.
 """
 
 import io
@@ -45,6 +47,7 @@ OBLIGATIONS = [
     "VgiVerif.C42.C42_dispatch",
     "VgiVerif.C42.C42_serving",
     "VgiVerif.C42.C42_call_contract",
+    "VgiVerif.C42.C42_serve_must_notify",
     "VgiVerif.C42.C42_writes",
     "VgiVerif.C42.C42_raise_unset",
     "VgiVerif.C42.C42_retry_refires",
@@ -409,7 +412,9 @@ def analyse(env: Env, cfg: dict[str, Any], run: Any) -> dict[str, Any]:
             labels.append(["req", tid])
         elif k == "serve":
             cur_req[tid] = {"tid": tid, "type": "serve", "dispatches": 0, "ctx_none": 0, "raised": False, "outcome": None,
-                            "target": [ev[2], ev[3]], "notified": False}
+                            "target": [ev[2], ev[3]], "notified": False,
+                            # was the recorded binding ever this call's own (kind, caps) before its first dispatch?
+                            "bound_seen": kind is not None and [kind, caps] == [ev[2], ev[3]], "first_dispatch_bound": None}
             labels.append(["serve", tid, ev[2], ev[3]])
         elif k == "rd-kind":
             labels.append(["rdKind", tid, ev[2]])
@@ -426,6 +431,9 @@ def analyse(env: Env, cfg: dict[str, Any], run: Any) -> dict[str, Any]:
             labels.append(["wrCaps", tid, ev[2]])
             spec.append(["setCaps", ev[2]])
             caps = ev[2]
+            for r in cur_req.values():
+                if r["type"] == "serve" and kind is not None and [kind, caps] == r["target"]:
+                    r["bound_seen"] = True
         elif k == "acq":
             locks.add(ev[2])
             in_cs += 1
@@ -475,6 +483,9 @@ def analyse(env: Env, cfg: dict[str, Any], run: Any) -> dict[str, Any]:
                 r["dispatches"] += 1
                 if ev[4] is None:
                     r["ctx_none"] += 1
+                if r["type"] == "serve" and r["first_dispatch_bound"] is None:
+                    r["first_dispatch_bound"] = bool(r["bound_seen"])
+                    r["first_dispatch_saw"] = [ev[2], ev[3]]
             spec.append(["dispatch", ev[2], ev[3]])
             if ev[2] is None:
                 anomalies.append("dispatch on an unbound server")
@@ -560,6 +571,11 @@ def judge(ctx: Any, env: Env, cfg: dict[str, Any], run: Any, an: dict[str, Any],
             ctx.fail(case, "C42:dispatch-count", f"expected {want} dispatches, saw {r['dispatches']}: {r}")
         if r["ctx_none"]:
             ctx.fail(case, "C42:dispatch-unbound", f"a method ran with ctx.kind None: {r}")
+        if r["type"] == "serve" and r.get("first_dispatch_bound") is False:
+            ctx.fail(case, "C42:serve-dispatch-before-own-binding",
+                     f"serve() over a transport of binding {r['target']} dispatched its first method although the server was "
+                     f"never bound to {r['target']} since the call began (the method saw {r.get('first_dispatch_saw')}): the hook "
+                     f"for this binding did not run before its methods: {r}")
     if an["open_reqs"]:
         ctx.fail(case, "C42:request-not-finished", "a request neither completed nor failed")
     if cfg["hook"] == "raiseAlways" and (final["binding"][0] is not None or any(r["dispatches"] for r in reqs)):
@@ -675,6 +691,12 @@ CORPUS: list[dict[str, Any]] = [
     # direct _notify_transport calls (what tests / other transports do), arbitrary capability sets
     {"hook": "ok", "progs": [[["notify", 0, 0], ["notify", 0, 1]], [["notify", 0, 1], ["notify", 1, 0]]]},
     {"hook": "raiseTwice", "progs": [[["notify", 2, 0], ["notify", 2, 0]], [["notify", 2, 0]], [["notify", 2, 1]]]},
+    # SEQUENTIAL re-binding through the real serve() entry point: one server served over kind A, then B, then A … and
+    # capability-only changes, next to an unrelated thread
+    {"hook": "ok", "progs": [[P1, U1, T1, P1, S1, D1]]},
+    {"hook": "ok", "progs": [[P1, U1, T1, P1], [H]]},
+    {"hook": "raiseOnce", "progs": [[U1, P1, U1], [T1]]},
+    {"hook": "absent", "progs": [[P1, S1, U1]]},
     # implementation without the hook
     {"hook": "absent", "progs": [[H], [H]]},
     {"hook": "absent", "progs": [[H], [P1], [S1]]},
@@ -697,6 +719,16 @@ def gen_cfg(rng: Any, threads: int) -> dict[str, Any]:
             else:
                 prog.append(["notify", rng.randrange(4), rng.choice([0, 0, 1, 2])])
         progs.append(prog)
+    if rng.random() < 0.35:
+        # one thread serves the SAME server over a chain of different transport classes, one after the other
+        classes = ["PipeTransport", "UnixTransport", "TcpTransport", "ShmPipeTransport", "*"]
+        chain = []
+        prev = None
+        for _ in range(rng.choice([3, 4])):
+            c = rng.choice([x for x in classes if x != prev])
+            chain.append(["serve", c, rng.choice([1, 1, 2])])
+            prev = c
+        progs[0] = chain
     return {"hook": rng.choice(HOOKS), "progs": progs, "src": "gen"}
 
 
